@@ -22,7 +22,7 @@ def gen_struct_glob(rng, maxtok=4):
         last = pos == n - 1
         kind = rng.choice(['lit', 'lit', 'lit', 'star', 'qm', 'dstar-prefix', 'dstar-mid', 'dstar-suffix', 'alt', 'cls', 'ncls', 'range', 'esc-space', 'esc-tab', 'esc-nl', 'sep'])
         if kind == 'lit':
-            c = rng.choice(['a', 'b', '.', '-'])
+            c = rng.choice(['a', 'b', '.', '-', 'a', 'b', 'A', 'B'])     # (upper case: matching is literal, `A` is not `a`)
             glob += c; rx += re.escape(c)
         elif kind == 'star':
             if glob.endswith('*'):
@@ -69,7 +69,7 @@ def gen_struct_glob(rng, maxtok=4):
 
 
 def gen_path(rng, maxdepth=4):
-    return '/'.join(rng.choice(['a', 'b', 'ab', '.a', 'a.b', '-', 'a b', 'ba', 'b.a', 'aa', 'a\tb', 't', 'atb', 'a\nb', 'n', 'anb', '\t']) for _ in range(rng.randint(1, maxdepth)))
+    return '/'.join(rng.choice(['a', 'b', 'ab', '.a', 'a.b', '-', 'a b', 'ba', 'b.a', 'aa', 'a\tb', 't', 'atb', 'a\nb', 'n', 'anb', '\t', 'A', 'B', 'Ab', 'aB', 'A.b', 'bA']) for _ in range(rng.randint(1, maxdepth)))
 
 
 RAW = list('ab/*?{},[]!-\\ .^') + ['**', '/**/', '**/', '/**', 'ю']
@@ -143,7 +143,7 @@ def e2e(ctx, n):
         w = hist.World(ctx, 7000 + i, random.Random(rng.randrange(1 << 30)))
         try:
             item = w.items[0]
-            names = ['a', 'b', 'ab', '.a', 'a.o', 'keep', 'skip']
+            names = ['a', 'b', 'ab', '.a', 'a.o', 'keep', 'skip', 'A', 'Skip', 'a.O', 'KEEP']
             paths = set()
             for _ in range(rng.randint(4, 14)):
                 comps = [rng.choice(names) for _ in range(rng.randint(1, 4))]
